@@ -181,6 +181,15 @@ def view_alphabet(shape):
         views.append(rng % 2 == 0)
         views.append(tuple(np.array([0, s - 1, 0]) for s in shape))
         views.append(tuple(np.array([[0, s - 1], [s - 1, 0]]) for s in shape))
+        # tuples of index arrays / boolean masks SHORTER than ndim (trailing axes stay), and masks inside tuples
+        for k in range(1, nd):
+            views.append(tuple(np.array([0, s - 1, 0]) for s in shape[:k]))
+            views.append(tuple(np.array([[0], [s - 1]]) for s in shape[:k]))
+        views.append((np.arange(shape[0]) % 2 == 0,))
+        if nd > 1:
+            views.append((np.arange(shape[0]) % 2 == 0, np.zeros(int(np.sum(np.arange(shape[0]) % 2 == 0)), dtype=int)))
+            views.append((slice(None), np.arange(shape[1]) % 2 == 0))
+            views.append((0, np.array([0, shape[1] - 1])))
         views.append((Ellipsis, slice(None, None, 2)))
     return views
 
